@@ -134,7 +134,7 @@ def one(arg):
         rec('fit#frame.rejected_call_leaves_fitted_state_unchanged', not diff, 'after a rejected fit (%s): %r changed' % (name, diff), dict(malformation=name))
         if isinstance(args['X'], pd.DataFrame) and not frame_equal(args['X'], case['X']):
             t = outcome(lambda: fitted.transform(args['X']))
-            still_used = kw.get('column') is None or kw['column'] in fitted.features or kw['column'] in fitted.features_casting     # (a column of a feature the fit dropped is no longer needed)
+            still_used = kw.get('column') is None or kw['column'] in fitted.features or bool(fitted.features_casting.get(kw['column']))     # (a column of a feature the fit dropped -- all of its per-class versions for a multiclass carver -- is no longer needed)
             if name in ('missing_feature_column_in_X', 'value_absent_from_ordinal_ranking') and still_used and (name != 'value_absent_from_ordinal_ranking' or case['ordinal'][0] in fitted.features):
                 rec('transform#raises.AssertionError.' + name, t[0] == 'reject', 'transform of X with %s: %s' % (name, t[0]), dict(malformation=name))
             after2 = state_of(fitted, case['X'])
